@@ -539,9 +539,9 @@ impl DateTime {
                 // Escape parts starting with apostrophe
                 if part.starts_with('\'') {
                     let part = part.replace('\u{0000}', "'");
-                    return part[1..part.len() - usize::from(part.ends_with('\''))]
-                        .chars()
-                        .collect::<Vec<char>>();
+                    let text = part.strip_prefix('\'').unwrap_or(&part);
+                    let text = text.strip_suffix('\'').unwrap_or(text);
+                    return text.chars().collect::<Vec<char>>();
                 }
 
                 format_part(part, days, nanoseconds, offset_seconds)
